@@ -6,7 +6,7 @@ import reccommon as R
 from engine import Op, set_mode
 
 PROP = "C12"
-LEAN_MODULES = ["IsoDT.Props.C12", "IsoDT.Props.C12b"]
+LEAN_MODULES = ["IsoDT.Props.C12", "IsoDT.Props.C12b", "IsoDT.Props.C12mm"]
 RULE = ("recurrences over the 3 notations x bounded (n = 1, 2, ...) / unbounded x anchors in any representation "
         "and zone (incl. 24:00) x exact intervals of many sizes and nominal (month/year, alone or mixed) "
         "intervals, first K points; non-trivial when the series crosses a month end, year boundary or uses a "
@@ -206,4 +206,5 @@ class Mk(Op):
 
 
 def ops():
-    return [Iter(), Notations(), Mk()]
+    import recmm
+    return [Iter(), Notations(), Mk(), recmm.RecMMOp(PROP, "mmiter", ["mmrmk", "mmriter", "mmriter", "mmriter"], 500)]
